@@ -22,7 +22,7 @@ for f in ${HARMLESS_FILES:-/verif/harmless/h*.diff /verif/harmless/g*.diff /veri
     *web/basic.go|*web/ntlm.go) props="C05 C10" ;;
     *web/oidc.go) props="C12 C13 C10" ;;
     *web/context.go) props="C04 C05 C10" ;;
-    *cmd/rdpgw/main.go) props="C02 C03 C04 C05 C16 C17" ;;
+    *cmd/rdpgw/main.go) props="C02 C03 C04 C05 C10 C13 C16 C17" ;;
     *web/web.go) props="C12 C18 C10" ;;
     *config/configuration.go) props="C18 C05 C10" ;;
     *kdcproxy/proxy.go) props="C20 C10" ;;
